@@ -15,13 +15,15 @@ type Block = cfg.Block
 // Graph is the control-flow graph of one function body (go/cfg) with the
 // helpers the path rules need.
 type Graph struct {
-	Fn        *Fn
-	C         *cfg.CFG
-	Blocks    []*cfg.Block // live blocks
-	Entry     *cfg.Block
-	preds     map[*cfg.Block][]*cfg.Block
-	flags     *[]types.Object
-	flagIdent map[types.Object]*ast.Ident
+	Fn          *Fn
+	C           *cfg.CFG
+	Blocks      []*cfg.Block // live blocks
+	Entry       *cfg.Block
+	preds       map[*cfg.Block][]*cfg.Block
+	flags       *[]types.Object
+	flagIdent   map[types.Object]*ast.Ident
+	nilFlags    map[types.Object]bool
+	inDefFilter bool
 }
 
 // Preds returns the predecessor map over live blocks.
